@@ -128,6 +128,17 @@ example :
       [0,0,0,0,0,0,0,0] ++ [78,0,0,0] ++ [85,0,0,0] ++ [7,7] ++ ([4,0,0,0] ++ [1,2,3]) ++ ([8,0,0,0] ++ [99,0,0,0] ++ [5] ++ [6,6]))
     = .err := by decide
 
+/-! ### fidelity of the representation (bytes are `Nat`s in the model) -/
+
+/-- on a genuine byte string (every element < 256) the decoded integer is a genuine uint64 — the `Nat`-valued fields of the model
+    do not exceed what the Go fields can hold -/
+theorem C08_ssz_decoded_integer_is_uint64 {buf : List Nat} {m : SSVMessage} (hb : ∀ b ∈ buf, b < 256)
+    (h : decodeSSV buf = .ok m) : m.msgType < 2 ^ 64 := decodeSSV_msgType_lt hb h
+
+/-- the encoder writes genuine bytes when the payload consists of bytes -/
+theorem C08_ssz_encoder_writes_bytes (m : SSVMessage) (hid : ∀ b ∈ m.msgID, b < 256) (hd : ∀ b ∈ m.data, b < 256) :
+    ∀ b ∈ encodeSSV m, b < 256 := encodeSSV_bytes m hid hd
+
 /-! ### tie: the limits and slice bounds of the model are the literals of the generated code -/
 
 def opToks : List String := ["<", ">", "==", "!=", "||", "++", "*", "+", "u!", "--", "/", "%"]
